@@ -83,10 +83,32 @@ class Family:
         return []
 
     # -- shared -----------------------------------------------------------
-    def build(self, stream):
+    query_pure = True  # read-only queries must not change any later answer (False: t-digest, queries flush)
+
+    def queries(self, sk):
+        """Every public read-only query of the sketch, as zero-argument callables."""
+        return []
+
+    def touch(self, sk):
+        """Call every public read-only query (results ignored: this only puts the
+        sketch in the 'has been queried' condition; verdicts come from check/observe)."""
+        common = [lambda: sk.item_count, lambda: sk.memory_bytes, lambda: repr(sk), lambda: str(sk)]
+        for q in list(self.queries(sk)) + common:
+            try:
+                q()
+            except Exception:
+                pass
+        return sk
+
+    def build(self, stream, touch=False):
+        """touch=True: every read-only query is called on the fresh sketch and after every insertion."""
         sk = self.new()
+        if touch:
+            self.touch(sk)
         for (x, w) in stream:
             add(sk, x, w)
+            if touch:
+                self.touch(sk)
         return sk
 
     def obs(self, sk, blob=None):
@@ -113,6 +135,7 @@ class Family:
         self._intern = {}
         self._trans = {}
         self._pairs = {}
+        self._touch = {}
         self.empty = self.canon(pickle.dumps(self.new(), -1))
 
     def canon(self, blob):
@@ -127,6 +150,17 @@ class Family:
             nb = self.canon(pickle.dumps(sk, -1))
             self.impl_calls += 1
             self._trans[key] = nb
+        return nb
+
+    def touched(self, blob):
+        """State after every read-only query was called once on it."""
+        nb = self._touch.get(blob)
+        if nb is None:
+            sk = pickle.loads(blob)
+            self.touch(sk)
+            nb = self.canon(pickle.dumps(sk, -1))
+            self.impl_calls += 1
+            self._touch[blob] = nb
         return nb
 
     def obs_blob(self, blob):
@@ -164,6 +198,11 @@ class BloomFam(Family):
     def new(self):
         return BloomFilter(size_bits=self.cfg["m"], num_hashes=self.cfg["h"], seed=self.cfg["seed"])
 
+    def queries(self, sk):
+        xs = (self.items + self.probes)[:6]
+        return ([lambda x=x: sk.contains(x) for x in xs] + [lambda x=x: x in sk for x in xs]
+                + [lambda: sk.false_positive_rate, lambda: sk.fill_ratio, lambda: sk.size_bits, lambda: sk.num_hashes])
+
     def check(self, sk, stream, shape, obs=None):
         o = dict(obs if obs is not None else self.observe(sk))
         v = []
@@ -194,6 +233,11 @@ class CMSFam(Family):
 
     def new(self):
         return CountMinSketch(width=self.cfg["w"], depth=self.cfg["d"], seed=self.cfg["seed"])
+
+    def queries(self, sk):
+        xs = (self.items + self.probes)[:6]
+        return ([lambda x=x: sk.estimate(x) for x in xs] + [lambda x=x: sk.estimate_with_error(x) for x in xs]
+                + [lambda: sk.inner_product(sk), lambda: sk.epsilon, lambda: sk.delta, lambda: sk.width, lambda: sk.depth])
 
     def check(self, sk, stream, shape, obs=None):
         o = dict(obs if obs is not None else self.observe(sk))
@@ -227,6 +271,9 @@ class HLLFam(Family):
     def new(self):
         return HyperLogLog(precision=self.cfg["p"], seed=self.cfg["seed"])
 
+    def queries(self, sk):
+        return [lambda: sk.cardinality(), lambda: sk.standard_error(), lambda: sk.precision, lambda: sk.num_registers]
+
     def check(self, sk, stream, shape, obs=None):
         # The statement has no accuracy clause for HyperLogLog (only merge == union).
         o = dict(obs if obs is not None else self.observe(sk))
@@ -251,6 +298,13 @@ class TopKFam(Family):
 
     def new(self):
         return TopK(k=self.cfg["k"])
+
+    def queries(self, sk):
+        xs = self.items
+        return ([lambda: sk.top(None), lambda: sk.top(1), lambda: sk.max_error(), lambda: sk.guaranteed_threshold(),
+                 lambda: sk.tracked_count, lambda: sk.k]
+                + [lambda x=x: sk.estimate(x) for x in xs] + [lambda x=x: sk.estimate_with_error(x) for x in xs]
+                + [lambda x=x: x in sk for x in xs])
 
     def check(self, sk, stream, shape, obs=None):
         k = self.cfg["k"]
@@ -302,14 +356,15 @@ class TDigestFam(Family):
     def new(self):
         return TDigest(compression=self.cfg["c"])
 
-    def build(self, stream):
-        sk = self.new()
-        each = self.cfg.get("mode") == "each"
-        for (x, w) in stream:
-            add(sk, x, w)
-            if each:
-                sk.quantile(0.5)  # a query between insertions (forces the buffered values in)
-        return sk
+    query_pure = False  # a query flushes the buffer: later clustering (hence later answers) may legitimately differ
+
+    def queries(self, sk):
+        return [lambda: sk.quantile(0.5), lambda: sk.percentile(90), lambda: sk.cdf(1.0), lambda: sk.min,
+                lambda: sk.max, lambda: sk.centroid_count, lambda: sk.compression]
+
+    def build(self, stream, touch=False):
+        # mode 'each': every read-only query between insertions (forces the buffered values in)
+        return Family.build(self, stream, touch or self.cfg.get("mode") == "each")
 
     def check(self, sk, stream, shape, obs=None):
         if not stream:
@@ -342,6 +397,10 @@ class ReservoirFam(Family):
 
     def new(self):
         return ReservoirSampler(size=self.cfg["k"], seed=self.cfg["seed"])
+
+    def queries(self, sk):
+        return [lambda: sk.sample(), lambda: list(sk), lambda: len(sk), lambda: sk[0], lambda: sk.is_full,
+                lambda: sk.sample_size, lambda: sk.capacity]
 
     def check(self, sk, stream, shape, obs=None):
         k = self.cfg["k"]
@@ -575,6 +634,58 @@ def merkle_build(mapping, how):
             t.remove(k)
         ops += 1
     return t, ops
+
+
+def merkle_histories(mapping, universe):
+    """Every construction history (JSON-able description) of ``mapping`` over the key universe:
+    bulk build from every insertion order of the keys, optionally followed by one
+    update-existing / remove / update-new, and pure update sequences in every order."""
+    import itertools
+    d = dict(mapping)
+    ks = list(d)
+    out = []
+    for perm in itertools.permutations(ks):
+        out.append(["build", list(perm)])
+        out.append(["update-only", list(perm)])
+        for k in ks:
+            out.append(["build-update-existing", list(perm), k])
+    for x in universe:
+        if x not in d:
+            for perm in itertools.permutations(ks + [x]):
+                out.append(["build-remove", list(perm), x])
+    for k in ks:
+        for perm in itertools.permutations([y for y in ks if y != k]):
+            out.append(["build-update-new", list(perm), k])
+    return out
+
+
+def merkle_construct(mapping, desc):
+    """Build the tree of ``mapping`` through the history ``desc``.  Returns (tree, library calls)."""
+    d = dict(mapping)
+    kind, perm = desc[0], desc[1]
+    if kind == "build":
+        return MerkleTree.build({k: d[k] for k in perm}), 1
+    if kind == "update-only":
+        t = MerkleTree()
+        for k in perm:
+            t.update(k, d[k])
+        return t, len(perm)
+    if kind == "build-update-existing":
+        k = desc[2]
+        t = MerkleTree.build({y: ("stale" if y == k else d[y]) for y in perm})
+        t.update(k, d[k])
+        return t, 2
+    if kind == "build-remove":
+        x = desc[2]
+        t = MerkleTree.build({y: (d[y] if y in d else "extra") for y in perm})
+        t.remove(x)
+        return t, 2
+    if kind == "build-update-new":
+        k = desc[2]
+        t = MerkleTree.build({y: d[y] for y in perm})
+        t.update(k, d[k])
+        return t, 2
+    raise ValueError(desc)
 
 
 def merkle_check(ma, mb, ta, tb):
